@@ -6,36 +6,9 @@
 //! produced by actions, captured as wire commands from a real `SyncRequester`/`SyncResponder`
 //! exchange and delivered to the other replica through `transaction` + `add_commands` +
 //! `commit`, either intact or with exactly one wire field changed.
-use std::{
-    borrow::Cow,
-    collections::{BTreeMap, BTreeSet},
-    sync::{Arc, Mutex},
-};
-
-use aranya_crypto::{
-    Csprng, DeviceId, EncryptionKey, IdentityKey, KeyStoreExt as _, Rng as OsRng, SigningKey,
-    default::{DefaultCipherSuite, DefaultEngine},
-    keystore::memstore::MemStore,
-};
-use aranya_crypto_ffi::Ffi as CryptoFfi;
-use aranya_device_ffi::FfiDevice as DeviceFfi;
-use aranya_envelope_ffi::Ffi as EnvelopeFfi;
-use aranya_idam_ffi::Ffi as IdamFfi;
-use aranya_perspective_ffi::FfiPerspective as PerspectiveFfi;
-use aranya_policy_compiler::Compiler;
-use aranya_policy_lang::lang::parse_policy_str;
-use aranya_policy_vm::{
-    Machine, Struct, Value,
-    ast::{Identifier, Text, Version},
-    ffi::FfiModule as _,
-};
-use aranya_runtime::{
-    Address, ClientError, ClientState, CmdId, Command, CommandExt as _, FfiCallable, GraphId,
-    MAX_SYNC_MESSAGE_SIZE, MemSpill, PeerCache, Prior, Priority, Query as _, RuntimeBuffers,
-    Segment as _, Storage as _, StorageProvider as _, SyncRequester, TraversalBuffer,
-    TraversalBuffers, VmAction, VmEffect, VmPolicy, VmProtocolData,
-    linear::testing::MemStorageProvider, testing::dsl::dispatch,
-};
+use aranya_crypto::{DeviceId, default::DefaultEngine, keystore::memstore::MemStore};
+use aranya_policy_vm::{Machine, Value, ast::Identifier};
+use aranya_runtime::{Address, ClientError, CmdId, GraphId, MemSpill, Prior, VmProtocolData};
 use mon_e2e::{absorb_all, world::*};
 use vcore::*;
 
@@ -454,7 +427,7 @@ fn honest_action(ctx: &mut Ctx<'_>, w: &World, dev: &mut Device, name: &str, arg
 
 fn run_world(m: &mut Monitor, machine: &Machine, world_seed: u64, rounds: u64) {
     let mut rng = Rng::new(world_seed);
-    let det = DetRng(Arc::new(Mutex::new(rng.fork(7))));
+    let det = DetRng::new(rng.fork(7));
     let (mut a, a_keys) = make_device("A", machine, &det);
     let (mut b, b_keys) = make_device("B", machine, &det);
     // A third registered identity without a replica: material for author swaps.
